@@ -194,8 +194,10 @@ def run(case):
     # the library's own decoder and the walker agree byte for byte on every owner
     flat = [rr for si in (1, 2, 3) for rr in p.sections[si] for _ in range(max(1, len(rr)))]
     for rr, wr in zip(flat, [r for r in wm.rrs if r.rdtype != W.OPT]):
+        # a relativized owner keeps its own spelling only for the part in front of the origin
+        own = len(rr.name.labels) if rr.name.is_absolute() else len(rr.name.labels)
         lab = rr.name.labels if rr.name.is_absolute() else rr.name.labels + origin.labels
-        if tuple(wr.owner.labels) != tuple(lab):
+        if tuple(wr.owner.labels[:own]) != tuple(lab[:own]) or W.name_key(wr.owner.labels) != W.name_key(lab):
             raise Violation("compression", f"walker owner {wr.owner.labels!r} != library owner {lab!r}", "owner-differential")
     nonempty = sum(1 for c in counts if c)
     ext = int(m.rcode()) >= 16
